@@ -1301,3 +1301,34 @@ def level_independence_replay(pi_method="gaussian"):
         out["exc"] = f"{type(e).__name__}: {e}"
         out["ok"] = False
     return out
+
+
+def national_summary_weights_replay(correlated=False):
+    """REAL get_national_summary_estimates (threshold mode) with weights that are NOT increasing in contest-name order:
+    the prediction must be base + the weights of exactly the contests whose predicted margin is positive"""
+    from elexmodel.models.BootstrapElectionModel import BootstrapElectionModel
+
+    B = 20
+    m = BootstrapElectionModel({"features": ["baseline_normalized_margin"], "B": B, "agg_model_hard_threshold": True, "national_summary_correlation": correlated})
+    rng = np.random.default_rng(0)
+    margins = {"a": -0.2, "b": 0.3, "c": 0.1, "d": 0.25, "e": -0.05, "f": 0.4}
+    weights = {"a": 55, "b": 10, "c": 29, "d": 3, "e": 16, "f": 4}
+    names = sorted(margins)
+    m.aggregate_pred_margin = np.array([[margins[k]] for k in names])
+    noise = rng.normal(0, 0.01, size=(len(names), B))
+    m.divided_error_B_1 = noise
+    m.divided_error_B_2 = noise * 0.5
+    m.called_contests = np.full((len(names), 1), -1)
+    m.stop_model_call = np.full((len(names), 1), False)
+    out = {"exc": None}
+    try:
+        base = 7.5
+        # insertion order different from the name order on purpose
+        r = m.get_national_summary_estimates({k: weights[k] for k in ("f", "a", "d", "b", "e", "c")}, base, 0.9)["margin"]
+        want = base + sum(weights[k] for k in names if margins[k] > 0)
+        out.update(pred=float(r[0]), lower=float(r[1]), upper=float(r[2]), want=float(want))
+        out["ok"] = bool(abs(r[0] - want) < 1e-9 and r[1] <= r[0] <= r[2])
+    except Exception as e:  # noqa
+        out["exc"] = f"{type(e).__name__}: {e}"
+        out["ok"] = False
+    return out
